@@ -145,7 +145,9 @@ def random_program(rng, nfields, max_rows=8, max_ops=5):
         end = "close" if api == "validate" else rng.choice(["close", "close", "abandon"] if api == "rows"
                                                              else ["close", "close", "forget", "abandon"])
         k = rng.randrange(1, max(2, len(table["rows"]) + 1)) if end == "abandon" else 0
-        hist.append({"run": {"op": "read", "api": api, "ds": table, "mode": mode, "limit": limit, "end": end, "k": k}})
+        hist.append({"run": {"op": "read", "api": api, "ds": table, "mode": mode, "limit": limit, "end": end, "k": k,
+                             # a reader object may be created now and read after the next run
+                             "deferred": api == "reader" and rng.random() < 0.4}})
     return hist
 
 
@@ -153,14 +155,19 @@ def run_program(shape, hist, fmt="delimited"):
     """Execute a history on one real Cid without any expectation (the recorded trace is what gets validated)."""
     cid = shape.new_cid()
     keep = []
-    for entry in hist:
-        run = entry["run"]
-        if fmt == "fixed" and not shape.has_fixed_form(run["ds"]):
-            continue
+    runs = [entry["run"] for entry in hist if not (fmt == "fixed" and not shape.has_fixed_form(entry["run"]["ds"]))]
+    waiting = None
+    for index, run in enumerate(runs):
         if run["op"] == "write":
             sessionlib.run_write(shape, cid, run, keep)
+        elif run.get("deferred") and waiting is None and index + 1 < len(runs):
+            waiting = (run, sessionlib.create_reader(shape, cid, run))
+            continue
         else:
             sessionlib.run_read(shape, cid, run, keep)
+        if waiting is not None:
+            sessionlib.run_read(shape, cid, waiting[0], keep, waiting[1])
+            waiting = None
     return keep
 
 
